@@ -269,6 +269,18 @@ class _InflationInterp:
                 for k in set(e1) | set(e2):
                     env[k] = e1.get(k) if e1.get(k) == e2.get(k) else None
                 continue
+            if isinstance(st, ast.For) and isinstance(st.iter, (ast.Tuple, ast.List)) and 0 < len(st.iter.elts) <= 4 and isinstance(st.target, ast.Name) and not st.orelse:
+                # a literal loop over the colliders (`for c in (collider0, collider1)`): the body once per element
+                stop = None
+                for el in st.iter.elts:
+                    env[st.target.id] = self.ev(el, env, T, mod, depth)
+                    r = self.run(st.body, env, T, mod, depth)
+                    if r[0] != "fall":
+                        stop = r
+                        break
+                if stop is not None:
+                    return stop
+                continue
             if isinstance(st, (ast.While, ast.For)):
                 return ("loop", st)
             # other statements (stores into arrays, asserts): cannot change the inflation
@@ -502,7 +514,9 @@ def _ret_kinds(f):
         k = "float"
         assigns = [st for st in iter_stmts(f.node.body) if isinstance(st, ast.Assign) and any(u(t) == n for t in st.targets)]
         augs = [st for st in iter_stmts(f.node.body) if isinstance(st, ast.AugAssign) and u(st.target) == n and isinstance(st.op, ast.Add) and const(st.value) == 1]
-        if augs:
+        loopvar = any(isinstance(l_, ast.For) and isinstance(l_.target, ast.Name) and l_.target.id == n and isinstance(l_.iter, ast.Call)
+                      and (call_name(l_.iter) or "").split(".")[-1] in ("count", "range") for l_ in ast.walk(f.node))
+        if augs or loopvar:
             k = "counter"
         elif assigns and all(isinstance(st.value, ast.Constant) and isinstance(st.value.value, bool) or isinstance(st.value, (ast.Compare, ast.BoolOp)) for st in assigns):
             k = "bool"
